@@ -44,7 +44,8 @@ def main():
     is_adapter = demo_pkg.startswith("pkg/adapters/")
     moddir = os.path.join(wt, demo_pkg) if is_adapter else wt
     pkgarg = "." if is_adapter else "./" + demo_pkg
-    demo_cmd = "go test %s -count=1 -run 'Seeded|seeded|ZZ|Demo' %s" % (tags, pkgarg)
+    race = "-race" if "-race" in str(meta.get("demo_run", "")) else ""  # demonstrations that only the race detector sees
+    demo_cmd = "go test %s %s -count=1 -run 'Seeded|seeded|ZZ|Demo' %s" % (tags, race, pkgarg)
     rc0, out0 = sh(demo_cmd, moddir)
     log["demo_without_patch"] = "PASS" if rc0 == 0 else "FAIL"
     # 1. apply
